@@ -32,10 +32,18 @@ use lru::LruCache;
 use rayon::prelude::*;
 use regex::Regex;
 use serde_json::{Map, Value};
+#[cfg(not(melda_verif))]
 use std::collections::{BTreeMap, BTreeSet, HashMap, HashSet, VecDeque};
+#[cfg(melda_verif)]
+use std::collections::{BTreeMap, BTreeSet, VecDeque};
+#[cfg(melda_verif)]
+use melda_verif_shim::collections::{HashMap, HashSet};
 use std::fmt;
 use std::num::NonZeroUsize;
+#[cfg(not(melda_verif))]
 use std::sync::{Arc, Mutex, RwLock};
+#[cfg(melda_verif)]
+use melda_verif_shim::sync::{Arc, Mutex, RwLock};
 
 /// Change triple (used for storing delta changesets)
 #[derive(PartialEq, Clone)]
@@ -774,8 +782,11 @@ impl Melda {
             }
         }
         // Commit data packs
+        #[cfg(not(melda_verif))]
         let mut data: std::sync::RwLockWriteGuard<'_, DataStorage> =
             self.data.write().expect("cannot_acquire_data_for_writing");
+        #[cfg(melda_verif)]
+        let mut data = self.data.write().expect("cannot_acquire_data_for_writing");
         let packid = data.pack()?;
 
         // Process stage
@@ -1547,8 +1558,11 @@ impl Melda {
                     }
                 }
             });
+            #[cfg(not(melda_verif))]
             let mut c_r: std::sync::MutexGuard<'_, HashMap<String, Map<String, Value>>> =
                 c.lock().unwrap();
+            #[cfg(melda_verif)]
+            let mut c_r = c.lock().unwrap();
             let root = c_r.get(start).expect("root_object_not_found");
             let root = Value::from(root.clone());
             let result = unflatten(&mut c_r, &root)
